@@ -18,6 +18,8 @@ static int ro_cb(jwt_t *jwt, jwt_config_t *) {
   return 0;
 }
 
+static int refusing_cb(jwt_t *jwt, jwt_config_t *cfg) { ro_cb(jwt, cfg); jwt_value_t v = val_get(JWT_VALUE_STR, "kid"); jwt_header_get(jwt, &v); return 1; }
+
 static void add_cfg(int prov, const char *key, const char *attr, jwt_alg_t expl, int expl_w, int nbf_w, int claims, bool cb) {
   auto c = std::make_unique<Cfg>(); c->prov = prov; c->k = key ? &POOL.get(key) : nullptr; c->attr = attr ? attr : ""; c->expl = expl;
   c->exp_leeway = expl_w; c->nbf_leeway = nbf_w; c->claims = claims; c->cb = cb;
@@ -62,11 +64,12 @@ static jwt_alg_t cfg_alg(const Cfg &c) { return c.expl != JWT_ALG_NONE ? c.expl 
 
 // runs one verify under configuration ci and checks the C06 oracle; returns verdict
 static bool G_POLLUTE = false;   // bit 13: OpenSSL's error queue is not empty when the library is called
+static bool G_REFUSE = false;   // bit 12: the checker's callback looks at the token and REFUSES it (returns non-zero), as a kid lookup that finds nothing does
 static bool G_DIRTY = false;   // bit 14 of the selector: the checker is REUSED - it has already rejected another token (and was not cleared)
 static int verify_with_oracle_inner(size_t ci, const std::string &token);
 static int verify_with_oracle(size_t ci, const std::string &token) {
   // reset global state: allocator (bit 15 of the selector: the application has installed its own allocator)
-  bool guard = (ci >> 15) & 1; G_DIRTY = (ci >> 14) & 1; G_POLLUTE = (ci >> 13) & 1; ci &= 0x1fff;
+  bool guard = (ci >> 15) & 1; G_DIRTY = (ci >> 14) & 1; G_POLLUTE = (ci >> 13) & 1; G_REFUSE = (ci >> 12) & 1; ci &= 0x0fff;
   jwt_set_alloc(NULL, NULL);
   size_t ledger0 = guard_live().size();
   if (guard) { guard_active() = true; guard_foreign_frees() = 0; jwt_set_alloc(guard_malloc, guard_free); fs().cls("with-application-allocator"); }
@@ -87,6 +90,7 @@ static int verify_with_oracle_inner(size_t ci, const std::string &token) {
   if (c.claims & 1) jwt_checker_claim_set(ch, JWT_CLAIM_ISS, "issuer");
   if (c.claims & 2) jwt_checker_claim_set(ch, JWT_CLAIM_SUB, "subject");
   if (c.claims & 4) jwt_checker_claim_set(ch, JWT_CLAIM_AUD, "audience");
+  if (G_REFUSE) { jwt_checker_setcb(ch, refusing_cb, NULL); fs().cls("checker-with-a-refusing-callback"); } else
   if (c.cb) jwt_checker_setcb(ch, ro_cb, NULL);
   if (G_DIRTY) { fs().cls("reused-checker"); jwt_checker_verify(ch, "eyJhbGciOiJub25lIn0.bm90LWpzb24.AAAA"); }
   int ret = jwt_checker_verify(ch, token.c_str());
@@ -112,6 +116,7 @@ static int verify_with_oracle_inner(size_t ci, const std::string &token) {
   if (msg.find("failed verification") != std::string::npos || msg.rfind("JWT[", 0) == 0) st.cls("reached-provider-verify");
   if (ret == 0) st.cls("accepted");
   if ((ret != 0) != (flag != 0)) st.cls("c14-ret-flag-mismatch");  // recorded for C14, not asserted here
+  if (ret == 0 && G_REFUSE) oracle_fail("accepted-although-the-callback-refused", "cfg=" + std::to_string(ci % CFGS.size()) + " token=" + token.substr(0, 300));
   if (ret == 0) {
     std::string d = "cfg=" + std::to_string(ci % CFGS.size()) + " token=" + token.substr(0, 300);
     if (!tp.ok) oracle_fail("accepted-without-two-dots", d);
@@ -182,6 +187,13 @@ static void emit_corpus(int mode) {
       if (mode == 0) body = std::string(1, (char)(i & 0xff)) + std::string(1, (char)(i >> 8)) + in + "." + b64u_enc(sig);
       else body = std::string(1, (char)(i & 0xff)) + std::string(1, (char)(i >> 8)) + std::string(1, (char)0) + std::string(1, (char)(h.size() & 0xff)) + std::string(1, (char)(h.size() >> 8)) + std::string(1, (char)(pay.size() & 0xff)) + std::string(1, (char)(pay.size() >> 8)) + h + pay + sig;
       std::string fn = std::string(d) + "/algshape-" + std::to_string(i) + "-" + std::to_string(n++); FILE *f = fopen(fn.c_str(), "wb"); if (f) { fwrite(body.data(), 1, body.size(), f); fclose(f); } } }
+  // valid tokens for a checker whose callback refuses them (selector bit 12)
+  for (size_t i = 0; i < CFGS.size(); i += 2) { const Cfg &c = *CFGS[i]; jwt_alg_t a = c.k ? cfg_alg(c) : JWT_ALG_NONE; static KeySpec dummy; size_t sel = i | 0x1000 | ((i & 4) ? 0x8000 : 0);
+    std::string h = std::string("{\"alg\":\"") + (a == JWT_ALG_NONE ? "none" : jwt_alg_str(a)) + "\",\"kid\":\"unknown\"}", pay = "{\"iss\":\"issuer\",\"sub\":\"subject\",\"aud\":\"audience\",\"n\":[1,{\"deep\":[true,null]}]}", in = b64u_enc(h) + "." + b64u_enc(pay);
+    std::string sig = c.k ? ref_sign(*c.k, a, in) : std::string(), body;
+    if (mode == 0) body = std::string(1, (char)(sel & 0xff)) + std::string(1, (char)(sel >> 8)) + in + "." + b64u_enc(sig);
+    else body = std::string(1, (char)(sel & 0xff)) + std::string(1, (char)(sel >> 8)) + std::string(1, (char)0) + std::string(1, (char)(h.size() & 0xff)) + std::string(1, (char)(h.size() >> 8)) + std::string(1, (char)(pay.size() & 0xff)) + std::string(1, (char)(pay.size() >> 8)) + h + pay + sig;
+    std::string fn = std::string(d) + "/refuse-" + std::to_string(i); FILE *f = fopen(fn.c_str(), "wb"); if (f) { fwrite(body.data(), 1, body.size(), f); fclose(f); } }
   // a few long inputs (tens of kilobytes): valid long token, long garbage in each segment
   for (size_t i = 2; i < CFGS.size(); i += 21) {
     const Cfg &c = *CFGS[i]; jwt_alg_t a = c.k ? cfg_alg(c) : JWT_ALG_NONE; static KeySpec dummy;
